@@ -61,6 +61,8 @@ type Explorer struct {
 	// enabled one) counts against the bound, not only preemptions. Used for whole-interpreter drivers
 	// whose polling loops offer a free alternative at almost every point.
 	DevBounded bool
+	// After is called after every recorded execution with its schedule (C32 reads the race log there).
+	After func(schedule string)
 }
 
 func schedString(devs []dev) string {
@@ -97,33 +99,12 @@ func ParseWitness(w string) (string, []dev, error) {
 // RunOnce executes the scenario under the given deviations (default choice 0 everywhere else).
 func RunOnce(sc *Scenario, devs []dev) (*vsched.Execution, Outcome, string) {
 	inst := sc.New()
-	i, k := 0, 0
-	diverged := ""
-	choose := func(p *vsched.Point) int {
-		defer func() { i++ }()
-		if k < len(devs) && devs[k].idx == i {
-			d := devs[k]
-			k++
-			if d.thread >= 0 && (d.thread != p.Thread || d.nEn != len(p.Enabled)) {
-				diverged = fmt.Sprintf("replay diverged at point %d: expected thread %d with %d enabled, got thread %d with %d", i, d.thread, d.nEn, p.Thread, len(p.Enabled))
-			}
-			if d.alt >= len(p.Enabled) {
-				if diverged == "" {
-					diverged = fmt.Sprintf("replay diverged at point %d: alternative %d of %d", i, d.alt, len(p.Enabled))
-				}
-				return 0
-			}
-			return d.alt
-		}
-		return 0
+	vd := make([]vsched.Dev, len(devs))
+	for i, d := range devs {
+		vd[i] = vsched.Dev{Idx: d.idx, Alt: d.alt, Thread: d.thread, NEn: d.nEn}
 	}
-	e := vsched.Run(vsched.Config{Choose: choose, MaxSteps: sc.MaxSteps, Monitor: inst.Monitor}, inst.Body)
-	if e.Diverged != "" && diverged == "" {
-		diverged = e.Diverged
-	}
-	if k < len(devs) && diverged == "" {
-		diverged = fmt.Sprintf("replay diverged: execution ended at point %d before deviation at %d", i, devs[k].idx)
-	}
+	e := vsched.Run(vsched.Config{Devs: vd, MaxSteps: sc.MaxSteps, Monitor: inst.Monitor}, inst.Body)
+	diverged := e.Diverged
 	if e.Horizon {
 		return e, Outcome{}, "step horizon reached (possible livelock in the harness or in murex; not a verdict)"
 	}
@@ -259,6 +240,9 @@ func (x *Explorer) record(e *vsched.Execution, o Outcome, devs []dev, cost int) 
 	}
 	x.C.P.Transitions += int64(len(e.Trace))
 	x.C.Eval(cost > 0 && o.NonTrivial, x.Sc.Name+": "+vlib.Clip(o.Key, 80))
+	if x.After != nil {
+		x.After(schedString(devs))
+	}
 	if x.St.Execs%997 == 1 {
 		x.C.Sample(map[string]any{"scenario": x.Sc.Name, "schedule": schedString(devs), "points": len(e.Trace), "threads": e.NThreads, "observed": vlib.Clip(o.Key, 200)})
 	}
